@@ -234,9 +234,38 @@ where
 
             CoalesceFuture::Leading {
                 future: Box::pin(future),
-                key: Some(key),
-                in_flight,
+                registration: Registration {
+                    key: Some(key),
+                    in_flight,
+                },
             }
+        }
+    }
+}
+
+/// A leader's entry in the in-flight map. Dropping it unregisters the key without a result
+/// (waiters observe `Closed`), unless `complete` has taken the key.
+struct Registration<K, Res, E>
+where
+    K: Hash + Eq + Clone,
+    Res: Clone,
+    E: Clone,
+{
+    key: Option<K>,
+    in_flight: Arc<InFlight<K, Res, E>>,
+}
+
+impl<K, Res, E> Drop for Registration<K, Res, E>
+where
+    K: Hash + Eq + Clone,
+    Res: Clone,
+    E: Clone,
+{
+    fn drop(&mut self) {
+        // If we're the leader and being dropped without completing,
+        // remove ourselves from the in-flight map so waiters get an error
+        if let Some(k) = self.key.take() {
+            self.in_flight.cancel(&k);
         }
     }
 }
@@ -253,9 +282,12 @@ where
     #[doc(hidden)]
     Leading {
         future: Pin<Box<S::Future>>,
-        key: Option<K>,
+        // Declared after `future`: fields are dropped in declaration order, so the inner future is
+        // destroyed before the key is unregistered. A request arriving while the abandoned inner
+        // call is still being torn down joins it (and gets `LeaderCancelled`) instead of starting
+        // a second inner call for the key.
         #[allow(private_interfaces)]
-        in_flight: Arc<InFlight<K, S::Response, S::Error>>,
+        registration: Registration<K, S::Response, S::Error>,
     },
     /// We're waiting for another request's result.
     Waiting {
@@ -279,18 +311,17 @@ where
         match this {
             CoalesceFuture::Leading {
                 future,
-                key,
-                in_flight,
+                registration,
             } => {
                 match future.as_mut().poll(cx) {
                     Poll::Ready(result) => {
                         // Notify all waiters
-                        if let Some(k) = key.take() {
+                        if let Some(k) = registration.key.take() {
                             let result_clone = match &result {
                                 Ok(res) => Ok(res.clone()),
                                 Err(e) => Err(e.clone()),
                             };
-                            in_flight.complete(&k, result_clone);
+                            registration.in_flight.complete(&k, result_clone);
                         }
                         Poll::Ready(result.map_err(CoalesceError::Service))
                     }
@@ -316,24 +347,6 @@ where
                         Poll::Ready(Err(CoalesceError::RecvError))
                     }
                 }
-            }
-        }
-    }
-}
-
-impl<S, K, Req> Drop for CoalesceFuture<S, K, Req>
-where
-    S: Service<Req>,
-    S::Response: Clone,
-    S::Error: Clone,
-    K: Hash + Eq + Clone,
-{
-    fn drop(&mut self) {
-        // If we're the leader and being dropped without completing,
-        // remove ourselves from the in-flight map so waiters get an error
-        if let CoalesceFuture::Leading { key, in_flight, .. } = self {
-            if let Some(k) = key.take() {
-                in_flight.cancel(&k);
             }
         }
     }
